@@ -172,7 +172,8 @@ pub fn gen_cases(seed: u64, n: usize, _thorough: bool) -> Vec<String> {
         let ds: Vec<String> = decls.iter().map(|d| d.word()).collect();
         let mode = if rng.chance(1, 4) { "nopipe" } else { "all" };
         // one program in eight names its resources with words one of the targets reserves (c05: `<entry>+R`)
-        let entry = if rng.chance(1, 8) { "CSMAIN+R".to_string() } else { rng.pick(&entries).to_string() };
+        // one in ten declares them through typedefs (c05: `<entry>+T`)
+        let entry = if rng.chance(1, 8) { "CSMAIN+R".to_string() } else if rng.chance(1, 10) { "CSMAIN+T".to_string() } else { rng.pick(&entries).to_string() };
         out.push(format!("X R {} {} {} {} {} U{} H{} {} {}", rng.below(3), entry, rng.range(1, 8), rng.range(1, 4), rng.range(1, 2), u, h, ds.join(" "), mode).split_whitespace().collect::<Vec<_>>().join(" "));
     }
     out
